@@ -223,6 +223,16 @@ def main():
                                                failing_input=v.get('input'), observed=v.get('observed'), bounded=True,
                                                tree=prog.tree_hash())))
 
+  # a failing input found by the stand-in on the real code serves as the replayed witness of deductive violations that had none
+  if standin and standin.get('violations'):
+    sv_ = [v for v in standin['violations'] if not match_known(known, prop, v['clause'], v.get('signature', ''))]
+    if sv_:
+      for cid, payload in violations:
+        if payload.get('failing_input') is None and not payload.get('bounded'):
+          payload['failing_input'] = sv_[0].get('input')
+          payload['observed'] = sv_[0].get('observed')
+          payload['failing_input_source'] = 'bounded stand-in clause %s (run on the real code of this tree)' % sv_[0]['clause']
+
   # ---- report ---------------------------------------------------------------------------------------
   seen_known = set()
   for k, cid in known_hits:
